@@ -164,19 +164,30 @@ def r4_close_body(ctx):
     conds = ctx.conds(body)
     o = ctx.origins(body)
     swap = [c for c in body.calls(True) if atomic_method(c) == "swap"]
-    if not swap:
-        ctx.missing("R09.4", "AtomicBool::swap guard in Session::close")
-        return
-    # the early return is on the true edge of the swap result
+    raises = [c for c in body.calls(True) if atomic_method(c) in ("swap", "store", "fetch_or", "compare_exchange")]
+    # the early return is on the true edge of the swap result (or of a plain test of the flag)
     guard_edges = []
     for c in conds.all():
         if c.kind == "bool" and is_call_term(c.term, ">::swap"):
             guard_edges = c.edges_for(False)
     if not guard_edges:
-        ctx.missing("R09.4", "branch on the swap result in Session::close")
+        for c in conds.all():
+            if c.kind == "bool" and is_call_term(c.term, S + "is_closed", ">::load"):
+                guard_edges = c.edges_for(False)
+                break
+    if not guard_edges or not raises:
+        ctx.missing("R09.4", "already-closed guard / write of the closed flag in Session::close")
         return
     start = [e[1] for e in guard_edges]
     rets = body.return_blocks()
+    # the flag goes up before the first teardown step: from then on is_closed() is true for everybody else (the pool's reuse path
+    # and reaper, open_stream, a second close())
+    teardown = [c.bb for c in body.calls(True) if c.callee and (c.callee.endswith(("Notify::notify_waiters", "AsyncWriteExt::shutdown", "Stream::close_with_error")) or (c.callee.endswith("::drain") and "HashMap" in c.callee))]
+    if teardown:
+        okf, pf = cfg.must_pass([0], teardown, via_blocks=[c.bb for c in raises])
+        ctx.ob("R09.4", "close:flag-raised-before-teardown", okf, raises[0].site, "the closed flag is written before any stream is released or the transport touched" if okf else
+               "close() starts tearing the session down before it raises the closed flag: while that close is in flight (up to the bounded transport shutdown, longer if a write is stuck) is_closed() is still false — "
+               "the pool hands the dying session to a new request and the reaper counts it as live; a concurrent close() runs the teardown a second time", path=None if okf else render_path(body, pf))
 
     def must(label, pats, detail):
         blocks = [c.bb for c in body.calls(True) if c.callee and c.callee.endswith(pats)]
